@@ -171,4 +171,26 @@ def schemaDiff (frm to : List Table) : List Change :=
     (fun a b => let cs := tableDiff a b; if cs.isEmpty then none else some (.modifyTable b.name cs))
     (fun t => .dropTable t.name) (fun t => .addTable t.name) frm to
 
+/-! ### schema objects (PostgreSQL enum types): `SchemaObjectDiff` of sql/postgres/driver_oss.go -/
+
+structure EnumObj where
+  name : Nat
+  values : List Nat
+deriving DecidableEq, Repr, Inhabited
+
+inductive OChange
+  | dropObject (name : Nat)
+  | modifyObject (name : Nat)
+  | addObject (name : Nat)
+deriving DecidableEq, Repr, Inhabited
+
+/-- first loop: drop or modify; second loop: add. The values are compared as ordered lists
+(`sqlx.ValuesEqual`). -/
+def objectDiff (frm to : List EnumObj) : List OChange :=
+  frm.filterMap (fun e =>
+    match to.find? (fun e2 => e2.name == e.name) with
+    | none => some (.dropObject e.name)
+    | some e2 => if e.values != e2.values then some (.modifyObject e.name) else none)
+  ++ to.filterMap (fun e => if frm.any (fun e1 => e1.name == e.name) then none else some (.addObject e.name))
+
 end Atlas.Diff
